@@ -140,12 +140,14 @@ class Sink:
 
 
 class LoopSpec:
-    def __init__(self, invariant=None, name=None, decreases=None, unfold=None, capture=None, fill=False):
+    def __init__(self, invariant=None, name=None, decreases=None, unfold=None, capture=None, fill=False, define=None):
         self.invariant = invariant     # callable(V) -> list[(label, BoolRef)] or list[BoolRef]
         self.name = name
         self.unfold = unfold           # callable(V) -> list[BoolRef] (instances of spec-function definitions)
         self.capture = capture         # callable(ex, Vhead, Vend): custom obligations on one symbolic iteration
         self.fill = fill               # loop is an instance of the fill schema (checked syntactically)
+        self.define = define           # callable(V) -> {scalar name: expr}: 'name == expr' is added to the invariant and
+                                       # the variable is replaced by the expression in the loop body (index de-flattening)
 
 
 class Contract:
@@ -153,7 +155,7 @@ class Contract:
                  ensures=None, modifies=(), loops=None, inline=False,
                  local_shapes=None, split=False, ghost=None, facts=None,
                  unroll_limit=200, use_contracts=(), scalars=None, notes="",
-                 tag="", fixed=None, after=None, hints=None, macros=None, gen=None, interp=None, lib="phonopy", auto_range=False, race=False, abstract_mul=False, derived=None):
+                 tag="", fixed=None, after=None, hints=None, macros=None, gen=None, interp=None, lib="phonopy", auto_range=False, race=False, abstract_mul=False, derived=None, replay_ensures=None):
         self.file = file
         self.func = func
         self.shapes = shapes or {}
@@ -181,6 +183,7 @@ class Contract:
         self.race = race               # generate OpenMP race-freedom obligations for parallel loops
         self.abstract_mul = abstract_mul  # try the UF-multiplication weakening first for this function's VCs
         self.derived = derived         # callable(V) -> [(label, formula)]: proved once from the requires, then usable as facts
+        self.replay_ensures = replay_ensures  # callable(V): function-level clauses evaluated on the real code in replay only
 
     def instance(self, tag=None, **fixed):
         import copy
